@@ -675,12 +675,6 @@ impl<P: consensus::Parameters> DeferredPcztBuilder<P> {
         mut rng: R,
         fee_rule: &FR,
     ) -> Result<PcztResult<P>, Error<FR::Error>> {
-        fn in_use(builder: &orchard::builder::Builder) -> bool {
-            !builder.spends().is_empty()
-                || !builder.outputs().is_empty()
-                || !builder.changes().is_empty()
-        }
-
         let fee = self.get_fee(fee_rule).map_err(Error::Fee)?;
 
         // After fees are accounted for, the value balance of the transaction must be zero.
@@ -706,7 +700,7 @@ impl<P: consensus::Parameters> DeferredPcztBuilder<P> {
             Ordering::Equal => (),
         };
 
-        let (orchard_bundle, orchard_meta) = if in_use(&self.orchard_builder) {
+        let (orchard_bundle, orchard_meta) = if orchard_bundle_expected(&self.orchard_builder) {
             let (bundle, meta) = self
                 .orchard_builder
                 .build_for_pczt(&mut rng)
@@ -715,7 +709,7 @@ impl<P: consensus::Parameters> DeferredPcztBuilder<P> {
         } else {
             (None, orchard::builder::BundleMetadata::empty())
         };
-        let (ironwood_bundle, ironwood_meta) = if in_use(&self.ironwood_builder) {
+        let (ironwood_bundle, ironwood_meta) = if orchard_bundle_expected(&self.ironwood_builder) {
             let (bundle, meta) = self
                 .ironwood_builder
                 .build_for_pczt(&mut rng)
